@@ -368,6 +368,7 @@ impl Check for C05 {
             depth,
             OPS.len()
         );
+        ctx.rule.push_str("; plus programs whose index, key or bound reads or writes, through an alias, the container it is applied to");
         let mut g_alias_mut = false;
         let stats = bfs(
             ctx,
